@@ -66,6 +66,9 @@ def tlc_mc(cfg, module, workers=16, timeout=1500, overrides=None, extra='', keep
         m = re.search(r'Invariant (\S+) is violated', l)
         if m: res['violated'] = m.group(1)
         if 'Model checking completed. No error has been found' in l: res['complete'] = True
+        m = re.search(r'Progress: (\d+) states checked, (\d+) traces generated', l)
+        if m: res['states'], res['sim_traces'] = int(m.group(1)), int(m.group(2))
+        if '-simulate' in extra and l.startswith('Finished in') and not res['violated']: res['complete'] = True
         if 'Temporal properties were violated' in l: res['violated'] = 'temporal property'
         if 'Checking temporal properties for the complete state space' in l: res['liveness_checked'] = True
         if l.startswith('<<"OUTCOME"'): res['outcomes'].append(l)
